@@ -28,16 +28,20 @@ import (
 )
 
 type jailSpec struct {
-	Root      string `json:"root"`
-	Op        string `json:"op"`
-	Name      string `json:"name"`
-	Path      string `json:"path"`
-	Overwrite bool   `json:"overwrite"`
-	SigFile   string `json:"sig_file"`
-	Format    string `json:"format"`
-	Level     string `json:"level"`
-	TrustFile string `json:"trust_file"`
-	DescJSON  string `json:"desc_json"`
+	Root       string `json:"root"`
+	Op         string `json:"op"`
+	Name       string `json:"name"`
+	Path       string `json:"path"`
+	Overwrite  bool   `json:"overwrite"`
+	SigFile    string `json:"sig_file"`
+	Format     string `json:"format"`
+	Level      string `json:"level"`
+	TrustFile  string `json:"trust_file"`
+	DescJSON   string `json:"desc_json"`
+	ConfigDir  string `json:"config_dir"`
+	LibexecDir string `json:"libexec_dir"`
+	CacheDir   string `json:"cache_dir"`
+	Kind       string `json:"kind"`
 }
 
 type jailResult struct {
@@ -140,6 +144,9 @@ func main() {
 			}
 		}
 		cases = append(cases, caseT{Op: "list", Depth: depth}, caseT{Op: "list", Depth: depth, LinkedRoot: true})
+		for _, ow := range []bool{false, true} {
+			cases = append(cases, caseT{Op: "install", Name: "linkedplug", Depth: depth, Source: "file", Overwrite: ow, LinkOut: true}, caseT{Op: "install", Name: "linkedplug", Depth: depth, Source: "dir", Overwrite: ow, LinkOut: true})
+		}
 	}
 	vnames := names
 	if r.Quick() {
@@ -160,6 +167,16 @@ func main() {
 			}
 			for _, f := range lib.Formats {
 				cases = append(cases, caseT{Op: "verify", Name: n, Depth: depth, Format: f, Level: "audit"}, caseT{Op: "verify", Name: n, Depth: depth, Format: f, Level: "strict"})
+			}
+		}
+	}
+
+	// the constructors that read the user's directories build their own plugin manager: it must look under
+	// <libexec>/plugins too - not under the configuration or the cache directory
+	for _, depth := range []int{1, 3} {
+		for _, kind := range []string{"oci", "oci-default", "blob"} {
+			for _, f := range lib.Formats {
+				cases = append(cases, caseT{Op: "verify-from-config", Name: "good", Depth: depth, Format: f, Level: "strict", Source: kind})
 			}
 		}
 	}
@@ -205,6 +222,19 @@ func main() {
 		isValid := lexicallyValid(c.Name)
 		judged := !strings.ContainsAny(c.Name, "\\") && c.Name != "..." && len(c.Name) < 200
 		switch c.Op {
+		case "verify-from-config":
+			for _, d := range []string{"/cfg", "/cache", "/cfg/plugins", "/cache/plugins"} { // sentinels where a manager rooted in the wrong directory would look
+				link(J(filepath.Join(d, c.Name, "notation-"+c.Name)))
+				os.WriteFile(J(filepath.Join(d, c.Name, "notation-"+c.Name))+".name", []byte(c.Name), 0o644)
+			}
+			sig, err := lib.CoreSign(lib.SignSpec{Format: c.Format, Payload: lib.Payload(desc), Signer: signerGood, Ext: []signature.Attribute{{Key: lib.HdrPlugin, Critical: true, Value: c.Name}}})
+			if err != nil {
+				panic(err)
+			}
+			os.WriteFile(J("/sig.bin"), sig, 0o644)
+			os.WriteFile(J("/trust.der"), signerGood.Root().Cert.Raw, 0o644)
+			sp.SigFile, sp.TrustFile, sp.ConfigDir, sp.LibexecDir, sp.CacheDir, sp.Kind = "/sig.bin", "/trust.der", "/cfg", filepath.Dir(root), "/cache", c.Source
+			allowedPrefix = append(allowedPrefix, filepath.Join(root, c.Name)+"/", "/cfg/truststore", "/cfg/trustpolicy")
 		case "get", "verify":
 			// sentinel wherever the executable path lexically resolves to
 			target := filepath.Join(root, path.Join(c.Name, "notation-"+c.Name))
@@ -268,6 +298,14 @@ func main() {
 				allowedPrefix = append(allowedPrefix, filepath.Join(root, c.Name))
 			}
 		case "install":
+			if c.LinkOut {
+				// <root>/<name> exists - as a symbolic link to a directory elsewhere (which holds no plugin): whatever Install
+				// does with the link, nothing is written into the directory it points to
+				os.MkdirAll(J("/elsewhere/target-dir"), 0o755)
+				os.WriteFile(J("/elsewhere/target-dir/unrelated.txt"), []byte("unrelated"), 0o644)
+				os.MkdirAll(J(root), 0o755)
+				os.Symlink("/elsewhere/target-dir", J(filepath.Join(root, c.Name)))
+			}
 			src := "/src/notation-" + c.Name
 			link(J(src))
 			os.WriteFile(J(src)+".name", []byte(c.Name), 0o644)
@@ -284,6 +322,9 @@ func main() {
 		case "list":
 			os.MkdirAll(J(filepath.Join(root, "b.c", "inner")), 0o755)
 			os.MkdirAll(J(filepath.Join(root, ".h")), 0o755)
+			for _, odd := range []string{"my plugin", "azure+kv", "signer@v2", "pl\u00fcgin"} { // unusual, but single path components all the same
+				os.MkdirAll(J(filepath.Join(root, odd)), 0o755)
+			}
 			os.WriteFile(J(filepath.Join(root, "file")), []byte("f"), 0o644)
 			os.Symlink(filepath.Join(root, "good"), J(filepath.Join(root, "ln-dir")))
 			os.Symlink(filepath.Join(root, "file"), J(filepath.Join(root, "ln-file")))
@@ -346,7 +387,7 @@ func main() {
 		}
 		key := ""
 		if !isValid && c.Op != "list" {
-			key = fmt.Sprintf("%s|%q|%d|%s|%s|%s|%v", c.Op, c.Name, c.Depth, c.Format, c.Level, c.Source, c.Absent || c.LinkOut)
+			key = fmt.Sprintf("%s|%q|%d|%s|%s|%s|%v", c.Op, c.Name, c.Depth, c.Format, c.Level, c.Source+fmt.Sprint(c.Overwrite), c.Absent || c.LinkOut)
 		}
 		r.Eval(key)
 		wit := map[string]any{"case": c, "name_quoted": fmt.Sprintf("%q", c.Name), "result": res, "fs_changes": diff, "plugin_root": root}
@@ -358,7 +399,8 @@ func main() {
 		}
 		switch {
 		case c.Op == "list":
-			want := []string{".h", "b.c", "good", "other"}
+			want := []string{".h", "azure+kv", "b.c", "good", "my plugin", "other", "pl\u00fcgin", "signer@v2"}
+			sort.Strings(want)
 			got := append([]string(nil), res.Names...)
 			sort.Strings(got)
 			r.Event("list-cases")
@@ -396,10 +438,21 @@ func main() {
 			if c.Op == "get" && c.Name == "good" && (!res.OK || len(markers) != 1) {
 				r.Violation(sig("control-failed"), fmt.Sprintf("control: Get(good) must execute the installed plugin exactly once: ok=%v err=%s markers=%v", res.OK, res.Err, markers), wit)
 			}
+			if c.Op == "verify-from-config" {
+				r.Event("verify-from-config-cases")
+				for _, m := range markers {
+					if !strings.HasPrefix(m, filepath.Join(root, c.Name)+"/") {
+						r.Violation(sig("process-executed"), fmt.Sprintf("a verifier built by the %s from-config constructor executed %s: plugins live under <libexec>/plugins/<name> only", c.Source, m), wit)
+					}
+				}
+				if !res.OK || len(markers) == 0 {
+					r.Violation(sig("control-failed"), fmt.Sprintf("control: verification through the %s from-config constructor with the plugin installed under <libexec>/plugins failed or did not run it: ok=%v err=%s markers=%v", c.Source, res.OK, res.Err, markers), wit)
+				}
+			}
 			if c.Op == "verify" && c.Name == "good" && len(markers) == 0 {
 				r.Violation(sig("control-failed"), "control: verification naming the installed plugin 'good' did not execute it: "+res.Err, wit)
 			}
-			if c.Op == "install" && !res.OK {
+			if c.Op == "install" && !res.OK && !c.LinkOut {
 				r.Violation(sig("control-failed"), fmt.Sprintf("control: install of valid plugin %q failed: %s", c.Name, res.Err), wit)
 			}
 		}
